@@ -91,6 +91,8 @@ type fixtures struct {
 const (
 	blockedHost  = "blocked.c20.example."
 	bigHost      = "big.c20.example."
+	midHost      = "mid.c20.example."
+	midTXTChunks = 4 // × 200 bytes: about 900 bytes on the wire
 	filterListID = "adguard_dns_filter"
 	dnsCheckName = "c20probe-dnscheck.adguard-dns.com."
 	ddrName      = "_dns.resolver.arpa."
@@ -319,8 +321,8 @@ func (fx *fixtures) answer(w dns.ResponseWriter, req *dns.Msg) {
 	case dns.TypeAAAA:
 		m.Answer = append(m.Answer, aaaa)
 	case dns.TypeTXT:
-		if strings.EqualFold(q.Name, bigHost) {
-			for i := 0; i < bigTXTChunks; i++ {
+		if n := txtChunks(q.Name); n > 0 {
+			for i := 0; i < n; i++ {
 				m.Answer = append(m.Answer, &dns.TXT{Hdr: hdr(dns.TypeTXT), Txt: []string{strings.Repeat(string(rune('a'+i)), 200)}})
 			}
 		} else {
@@ -337,6 +339,17 @@ func (fx *fixtures) answer(w dns.ResponseWriter, req *dns.Msg) {
 		m.Truncate(size)
 	}
 	_ = w.WriteMsg(m)
+}
+
+// txtChunks is the number of 200-byte TXT records the stub answers with.
+func txtChunks(name string) int {
+	switch {
+	case strings.EqualFold(name, bigHost):
+		return bigTXTChunks
+	case strings.EqualFold(name, midHost):
+		return midTXTChunks
+	}
+	return 0
 }
 
 // ---- gRPC stubs ---------------------------------------------------------------------------
